@@ -120,9 +120,11 @@ enum ROp {
     /// ToCsv::to_csv_string on a dataset / on the store (manifest table): also takes &self
     DatasetToCsv,
     StoreCsvManifest,
+    /// TextResource::to_txt_file (takes &self) to a scratch path that is not the resource's own stand-off file
+    ResourceToTxtFile,
 }
 
-const ALL_OPS: [ROp; 11] = [ROp::StoreJson, ROp::ResourceToJson, ROp::DatasetToJson, ROp::ResourceInherentJson, ROp::Query, ROp::RelatedText, ROp::Parallel, ROp::QueryResultJson, ROp::ResourceToJsonFile, ROp::DatasetToCsv, ROp::StoreCsvManifest];
+const ALL_OPS: [ROp; 12] = [ROp::StoreJson, ROp::ResourceToJson, ROp::DatasetToJson, ROp::ResourceInherentJson, ROp::Query, ROp::RelatedText, ROp::Parallel, ROp::QueryResultJson, ROp::ResourceToJsonFile, ROp::DatasetToCsv, ROp::StoreCsvManifest, ROp::ResourceToTxtFile];
 
 fn run_op(store: &AnnotationStore, op: ROp) -> String {
     match op {
@@ -171,6 +173,18 @@ fn run_op(store: &AnnotationStore, op: ROp) -> String {
             let _ = std::fs::remove_file(&path);
             out
         }
+        ROp::ResourceToTxtFile => {
+            let r = store.resources().next().expect("resource");
+            static M: AtomicU64 = AtomicU64::new(0);
+            let path = std::env::temp_dir().join(format!("c20-scratch-{}-{}.txt", std::process::id(), M.fetch_add(1, Ordering::Relaxed)));
+            let p = path.to_string_lossy().to_string();
+            let out = match r.as_ref().to_txt_file(&p) {
+                Ok(()) => std::fs::read_to_string(&path).unwrap_or_else(|e| format!("ERR read {}", e)),
+                Err(e) => format!("ERR {}", e),
+            };
+            let _ = std::fs::remove_file(&path);
+            out
+        }
         ROp::DatasetToCsv => {
             let s = store.datasets().next().expect("dataset");
             ToCsv::to_csv_string(s.as_ref(), None).unwrap_or_else(|e| format!("ERR {}", e))
@@ -191,6 +205,11 @@ fn build_store(dir: &str, standoff: bool, changed: bool) -> AnnotationStore {
 }
 
 fn build_store_kind(dir: &str, standoff: bool, changed: bool, json_resources: bool) -> AnnotationStore {
+    build_store_full(dir, standoff, changed, json_resources, true)
+}
+
+/// `sync` = bring files and changed flags in step by one serialisation after loading (loading marks every member as changed)
+fn build_store_full(dir: &str, standoff: bool, changed: bool, json_resources: bool, sync: bool) -> AnnotationStore {
     let _ = std::fs::remove_dir_all(dir);
     std::fs::create_dir_all(dir).expect("dir");
     let mut store = AnnotationStore::new(Config::default().with_debug(false).with_workdir(dir.to_string())).with_id("c20");
@@ -217,7 +236,9 @@ fn build_store_kind(dir: &str, standoff: bool, changed: bool, json_resources: bo
     store.to_file(&path).expect("write");
     let mut loaded = AnnotationStore::from_file(&path, Config::default().with_debug(false).with_workdir(dir.to_string())).expect("reload");
     // loading marks the members as changed: a first serialisation brings files and flags in sync; readers come afterwards
-    let _ = loaded.to_json_string(loaded.config());
+    if sync {
+        let _ = loaded.to_json_string(loaded.config());
+    }
     if changed {
         // a new annotation with new data marks store and dataset as changed
         loaded.annotate(AnnotationBuilder::new().with_id("late").with_target(SelectorBuilder::textselector("r1", Offset::simple(18, 22))).with_data("s", "k", 99isize)).unwrap();
@@ -341,10 +362,22 @@ fn dir_content(dir: &str) -> std::collections::BTreeMap<String, String> {
 
 /// A store with changed stand-off members: what a reader leaves on disk (the first serialisation of the store writes the
 /// changed members out) must not depend on which other reader ran before it. Sequential, three fresh stores per pair.
-fn disk_effects(rep: &mut Report, dir: &str, kind: &str, ops: &[ROp]) {
+fn disk_effects(rep: &mut Report, dir: &str, kind: &str, ops: &[ROp], all_changed: bool) {
+    let kind = if all_changed { "standoff-just-loaded" } else { kind };
     let fresh = |tag: &str| -> (AnnotationStore, String) {
         let d = format!("{}-{}", dir, tag);
-        (build_store_kind(&d, true, true, false), d)
+        // all_changed: no serialisation since loading, every stand-off member is still flagged as changed
+        let store = build_store_full(&d, true, true, all_changed, !all_changed);
+        // the member files go, so that writing one is visible whatever its content
+        if let Ok(rd) = std::fs::read_dir(&d) {
+            for e in rd.flatten() {
+                let n = e.file_name().to_string_lossy().to_string();
+                if n.starts_with("res") || n.starts_with("set") {
+                    let _ = std::fs::remove_file(e.path());
+                }
+            }
+        }
+        (store, d)
     };
     let (s0, d0) = fresh("d0");
     let init = dir_content(&d0);
@@ -359,10 +392,12 @@ fn disk_effects(rep: &mut Report, dir: &str, kind: &str, ops: &[ROp]) {
     let c01 = dir_content(&d01);
     rep.eval();
     rep.distinct(&format!("disk-effects/{}/{:?}", kind, ops));
-    for (name, before) in &init {
-        let w0 = c0.get(name) != Some(before);
-        let w1 = c1.get(name) != Some(before);
-        let w01 = c01.get(name) != Some(before);
+    let names: std::collections::BTreeSet<&String> = init.keys().chain(c0.keys()).chain(c1.keys()).chain(c01.keys()).collect();
+    for name in names {
+        let before = init.get(name);
+        let w0 = c0.get(name) != before;
+        let w1 = c1.get(name) != before;
+        let w01 = c01.get(name) != before;
         let fname = name.split('.').skip(1).collect::<Vec<_>>().join(".");
         if (w0 || w1) && !w01 {
             rep.violation(
@@ -463,9 +498,11 @@ pub fn run(p: &Params, rep: &mut Report) {
         let (kind, standoff, changed) = storekinds[*sk];
         let dir = format!("{}/c20-{}-{}", p.workdir, p.shard, ji);
         if changed {
-            disk_effects(rep, &dir, kind, ops);
-            if ops[0] != ops[1] {
-                disk_effects(rep, &dir, kind, &[ops[1], ops[0]]);
+            for all_changed in [false, true] {
+                disk_effects(rep, &dir, kind, ops, all_changed);
+                if ops[0] != ops[1] {
+                    disk_effects(rep, &dir, kind, &[ops[1], ops[0]], all_changed);
+                }
             }
         }
         let store = build_store_kind(&dir, standoff, changed, kind == "standoff-json-resource");
